@@ -164,10 +164,11 @@ impl PreparedQuery {
             };
         }
 
-        let rows: Vec<_> = crate::executor::execute_plan(snapshot, &self.plan, params).collect();
         let mut results = Vec::new();
 
-        for row_res in rows {
+        // Stop at the first error: once the soft timeout (or a row limit) has tripped, the guarded
+        // iterator reports that error on every call and never ends.
+        for row_res in crate::executor::execute_plan(snapshot, &self.plan, params) {
             let row = row_res?;
             let mut map = std::collections::HashMap::new();
             for (k, v) in row.columns().iter().cloned() {
